@@ -13,7 +13,25 @@ import c01
 HEAD = gen_xslt.HEAD
 
 
+# node tests and axes that are filed under their own tables (or under several) by Stylesheet::addTemplate: every kind of
+# node test on the attribute axis, the explicit axes, node type tests with predicates, names in a namespace
+def rare_pattern(r, names, attrs):
+    n = r.choice(names)
+    a = r.choice(attrs)
+    forms = ['@node()', n + '/@node()', '@node()[.!=""]', 'attribute::node()', 'attribute::*', 'attribute::' + a, '@p:*', '@q:*', '*/@' + a,
+             '*/@*', n + '/@*', '@*[1]', '@' + a + '[.=1]', 'child::' + n, 'child::*', 'child::node()', 'child::text()', 'node()[1]', 'node()[self::' + n + ']',
+             'text()[1]', 'text()[.!=""]', 'comment()[1]', 'processing-instruction()[1]', "processing-instruction('pi')[1]", "processing-instruction('other')",
+             '*/node()', n + '/node()', n + '/comment()', n + '/processing-instruction()', '*/text()', '/*', '/node()', '/' + n, '/comment()',
+             '//' + n, '//@' + a, '//@node()', '//node()', '//text()', '//comment()', 'p:' + r.choice(['a', 'b', 'e', 'x']), 'q:' + r.choice(['a', 'b', 'e', 'x']),
+             '*[1]/@' + a, n + '//@*', n + '//node()', n + '//text()', "@*[name()='" + a + "']"]
+    return r.choice(forms)
+
+
 def rule_pattern(r, names, attrs, avoid):
+    if r.random() < 0.22:
+        if r.random() < 0.2:
+            return ' | '.join(rare_pattern(r, names, attrs) for _ in range(2))
+        return rare_pattern(r, names, attrs)
     k = r.random()
     n = r.choice(names)
     if k < 0.3:
